@@ -430,7 +430,24 @@ def level2(repo, res):
             res.add(Finding("L2-SCATTER", W.rel, "getBH_level2", loads[0], "the recorded member positions are used to *gather* from the stacked group results; "
                             "row l of the output must be written at position order[i] (the inverse permutation would be needed for a gather)", loads[0].lineno))
         elif not stores:
-            res.notes.append("L2-SCATTER: position list not used as a store index (idiom changed) - undecided")
+            # are the recorded positions consumed at all (e.g. X[np.argsort(order)] - the inverse permutation - is a correct gather)?
+            used = False
+            for n in ast.walk(fn):
+                if isinstance(n, ast.Subscript) and isinstance(n.slice, ast.Constant) and n.slice.value in order_keys and isinstance(n.ctx, ast.Load):
+                    p_ = parents.get(id(n))
+                    if not (isinstance(p_, ast.Attribute) and p_.attr == "append"):
+                        used = True
+                if isinstance(n, ast.Name) and n.id in aliases and isinstance(n.ctx, ast.Load):
+                    p_ = parents.get(id(n))
+                    if not (isinstance(p_, ast.Attribute) and p_.attr in ("append", "extend")):
+                        used = True
+            if used:
+                res.notes.append("L2-SCATTER: position list not used as a store index (idiom changed) - undecided")
+            else:
+                anchor = next(n for n in ast.walk(fn) if isinstance(n, ast.Call) and isinstance(n.func, ast.Attribute) and n.func.attr == "append"
+                              and re.search(r"order", ast.unparse(n.func.value)))
+                res.add(Finding("L2-SCATTER", W.rel, "getBH_level2", anchor, "the positions of the group members in the source list are recorded but never used: the rows of the "
+                                "result come out in group order, so with interleaved source types ([Cuboid, Sphere, Cuboid]) a row holds another source's field", anchor.lineno))
     # ---- L2-PAD
     import rules_t1
     t1 = rules_t1.analyse(fn)
